@@ -60,3 +60,38 @@ while True:
 raw("D2-invert", "C09", {"kind": "program", "src": {"": HDR + "x = d0.Setting\ndb.Setting = ~x\n"}, "opts": {}})
 raw("D18-bdns", "C16", {"family": "intrinsic", "name": "bdns"})
 raw("D26-library-constexpr", "C12", {'funcs': ['def cx0(a, b, c):\n    x = a\n    y = a * 2 + 1\n    x = (x << 2) | 0\n    return x', 'def cx1(a, b, c):\n    x = a\n    y = a * 2 + 1\n    x = (x << 1) | 0\n    x = x + len(c) + (HASH(c) & 1023)\n    x = (x << 1) | 0\n    x = (x << 1) | 0\n    return x', 'def cx2(a, b):\n    x = a\n    y = a * 2 + 1\n    y = y + cx0(a=0, b=0, c=0)\n    n = 0\n    while x > 10 and n < 20:\n        x = x >> 1\n        n += 1\n    y += n\n    return x'], 'infos': [{'name': 'cx0', 'params': ['a', 'b', 'c'], 'kinds': ['int', 'int', 'int'], 'defaults': {}, 'shape': {'branch': False, 'loop': False}, 'call_int': 'cx0(a=0, b=0, c=0)'}, {'name': 'cx1', 'params': ['a', 'b', 'c'], 'kinds': ['int', 'int', 'str'], 'defaults': {}, 'shape': {'branch': False, 'loop': False}, 'call_int': "cx1(a=0, b=0, c='x y')"}, {'name': 'cx2', 'params': ['a', 'b'], 'kinds': ['int', 'num'], 'defaults': {}, 'shape': {'branch': False, 'loop': True}, 'call_int': 'cx2(a=0, b=0.5)'}], 'calls': [{'text': 'cl.cx2(a=0, b=0.5)', 'func': 'cx2', 'nondefault': True, 'pos': 0}], 'in_lib': True, 'opts': {}})
+raw("D7b-nonboolean-and", "C03", {"kind": "trees", "style": 0, "rendered": [["({0} and {1})", ["1", "2"]]]})
+prog("D11-tail-call-after-call", "C06", """
+def inner(a):
+    db.Setting = a
+def outer(b):
+    inner(b)
+    inner(b + 1)
+while True:
+    outer(1)
+    outer(5)
+    yield_()
+""", opts={"tail_call_optimization": True}, force_tco=True)
+raw("D13-duplicate-label", "C05", {"src": {"": HDR + "def f(a):\n    if a > 1:\n        return\n    db.Setting = a\ndef fend(a):\n    d1.Setting = a\nwhile True:\n    f(1)\n    f(2)\n    fend(3)\n    fend(4)\n    yield_()\n"},
+    "env_seeds": [1], "pool": POOL, "opts": {"inline_functions": False}, "names": ["f", "fend"]})
+prog("D20-call-in-list-loop", "C06", """
+def show(a):
+    db.Setting = a
+while True:
+    for v in [1, 2, 5]:
+        show(v)
+        show(v + 1)
+    yield_()
+""", opts={})
+prog("D25-partial-return", "C06", """
+def pick(a):
+    if a > 2:
+        return a
+    db.Setting = a
+while True:
+    d1.Setting = pick(d0.Setting)
+    d1.Setting = pick(1)
+    yield_()
+""", opts={"use_push_pop_functions": True, "inline_functions": False})
+raw("D28-function-named-like-logic-type", "C05", {"src": {"": HDR + "def Setting():\n    db.Setting = d0.Setting\nwhile True:\n    Setting()\n    Setting()\n    yield_()\n"},
+    "env_seeds": [1], "pool": POOL, "opts": {}, "names": ["Setting"]})
